@@ -118,3 +118,57 @@ Theorem C14_judge_reprt_accepts_exactly_the_specification :
     RtModel.judge_reprt rec = 0%Z <-> JudgeComplete2.reprt_spec rc cf Mo rc2 v rc3 M2o.
 Proof. exact JudgeComplete2.judge_reprt_iff. Qed.
 Print Assumptions C14_judge_reprt_accepts_exactly_the_specification.
+
+(* ---------- the judge accepts EXACTLY the records that satisfy its specification (JudgeComplete3.v): completeness besides soundness,
+   a record of a correct answer is never rejected ---------- *)
+From Cmr Require JudgeComplete3.
+Theorem C14_judge_edgelist_accepts_exactly_the_specification :
+    forall rec : list Z,
+    EdgeModel.judge_edgelist rec = 0%Z <->
+    (exists
+    (bytes : list Z) (rc : Z) (nn : nat) (hl : Z) (labs : list (list Z)) (es : list (nat * nat * Z)) 
+    (rest : list Z),
+    EdgeProofs.edgelist_input rec = Some (bytes, rc, nn, hl, labs, es, rest) /\
+    rc = 0%Z /\
+    (exists names : list (list Z),
+    EdgeModel.parse_edges [] (EdgeModel.lines bytes) = Some (names, es) /\
+    nn = length names /\ (hl <> 0%Z -> labs = names))).
+Proof. exact JudgeComplete3.judge_edgelist_iff_total. Qed.
+Print Assumptions C14_judge_edgelist_accepts_exactly_the_specification.
+Theorem C14_judge_cligraph_accepts_exactly_the_specification :
+    forall (rec : list Z) (signed tr : bool) (outfmt : Z) (inb : list Z) (rc : Z) 
+    (hasout : bool) (outb rest : list Z),
+    CliProofs.cligraph_input rec = Some (signed, tr, outfmt, inb, rc, hasout, outb, rest) ->
+    CliModel.judge_cligraph rec = 0%Z <-> JudgeComplete3.cligraph_spec signed tr outfmt inb rc hasout outb.
+Proof. exact JudgeComplete3.judge_cligraph_iff. Qed.
+Print Assumptions C14_judge_cligraph_accepts_exactly_the_specification.
+
+(* ---------- through the translator: the C text of nextPower2 (hashtable.h: pre-decrement, for loop, |=, >>, sizeof) returns the smallest
+   power of two >= x for 1 <= x <= 2^63, and 0 (wrap-around) for x = 0 and for x > 2^63 (Pow2Proofs.v, about the generated
+   LeafGen.c_nextPower2) ---------- *)
+From Cmr Require LeafGen LeafModel Pow2Proofs.
+Theorem C14_nextPower2_is_the_smallest_power_of_two :
+    forall x : Z,
+    (1 <= x <= 2 ^ 63)%Z ->
+    exists k : Z,
+    LeafGen.c_nextPower2 8 x = Some (2 ^ k)%Z /\
+    (0 <= k <= 63)%Z /\ (x <= 2 ^ k)%Z /\ (k = 0%Z \/ (2 ^ (k - 1) < x)%Z) /\ (2 ^ k < 2 * x)%Z.
+Proof. exact Pow2Proofs.nextPower2_smallest. Qed.
+Print Assumptions C14_nextPower2_is_the_smallest_power_of_two.
+Theorem C14_nextPower2_value :
+    forall x : Z, (1 <= x <= 2 ^ 63)%Z -> LeafGen.c_nextPower2 8 x = Some (2 ^ Z.log2_up x)%Z.
+Proof. exact Pow2Proofs.nextPower2_spec. Qed.
+Print Assumptions C14_nextPower2_value.
+Theorem C14_nextPower2_of_zero :
+    LeafGen.c_nextPower2 8 0 = Some 0%Z.
+Proof. exact Pow2Proofs.nextPower2_zero. Qed.
+Print Assumptions C14_nextPower2_of_zero.
+Theorem C14_nextPower2_beyond_the_range :
+    forall x : Z, (2 ^ 63 < x < 2 ^ 64)%Z -> LeafGen.c_nextPower2 8 x = Some 0%Z.
+Proof. exact Pow2Proofs.nextPower2_big. Qed.
+Print Assumptions C14_nextPower2_beyond_the_range.
+Theorem C14_nextPower2_leaf_judge_specification :
+    forall x : Z,
+    exists r : Z, LeafModel.leaf_gen 14 [x] = Some (Some r) /\ LeafModel.leaf_spec 14 [x] r = true.
+Proof. exact Pow2Proofs.leaf_spec_nextPower2. Qed.
+Print Assumptions C14_nextPower2_leaf_judge_specification.
